@@ -27,3 +27,28 @@ pub fn fuzz_case<C: Clone + Send + Serialize + 'static>(prop: &str, stage: &str,
     eprintln!("SEV-FUZZ-VIOLATION property={} replay={} :: {}", prop, path.display(), msg);
     std::process::abort();
 }
+
+/// Generic target: SEV_FUZZ_PROP names the property; the first byte selects one of its random stages, the rest
+/// is the random stream of that stage's strategy.
+pub fn fuzz_property(data: &[u8]) {
+    use std::sync::OnceLock;
+    static PROP: OnceLock<(String, Vec<Box<dyn DynStage>>)> = OnceLock::new();
+    INIT.call_once(install_panic_hook);
+    let (id, stages) = PROP.get_or_init(|| {
+        let id = std::env::var("SEV_FUZZ_PROP").expect("SEV_FUZZ_PROP");
+        let tier = if std::env::var("SEV_FUZZ_TIER").as_deref() == Ok("quick") { Tier::Quick } else { Tier::Thorough };
+        let p = crate::props::property(&id, tier).expect("unknown property");
+        let stages: Vec<Box<dyn DynStage>> = p.stages.into_iter().filter(|s| s.is_random()).collect();
+        assert!(!stages.is_empty(), "no random stage");
+        (id, stages)
+    });
+    if data.len() < 2 {
+        return;
+    }
+    let st = &stages[data[0] as usize % stages.len()];
+    if let Some(Some(f)) = st.fuzz_one(&data[1..]) {
+        let path = crate::report::write_replay(id, &f);
+        eprintln!("SEV-FUZZ-VIOLATION property={} replay={} :: {}", id, path.display(), f.message);
+        std::process::abort();
+    }
+}
